@@ -65,6 +65,8 @@ def main(argv=None):
         specs = [s for s in specs if a.only in s['name']]
     for s in specs:
         s.setdefault('prop', prop); s.setdefault('seed', seed)
+        # second solver on a seeded sample of the final queries (thorough: 1 in 200, quick: 1 in 2000)
+        s.setdefault('cross_rate', 0.005 if tier == 'thorough' else 0.0005)
     specs.sort(key=lambda s: -s.get('cost', s.get('budget_s', 60)))
     results = []
     if hasattr(mod, 'prepare'):
@@ -158,9 +160,31 @@ def main(argv=None):
                       unknown=r['unknown'], complete=r['complete'], wall_s=r['wall_s']) for r in results][:400],
         known_findings_seen=[k['what'] for k, _ in knowns][:20],
         counterexamples_not_reproduced=[x[0] for x in nonrepro][:10], witness_replay_disagreements=len(wbad), job_errors=len(errors),
+        second_solver=dict(solver='cvc5 (python wheel) on the SMT-LIB2 export of the z3 query', queries_rechecked=S('cross_checked'), inconclusive=S('cross_inconclusive'),
+                           disagreements=sum(len(r.get('cross_disagree', [])) for r in results)),
         partial_run_filter=a.only, paths_outside_harness_bound=S('outside_bound'),
         unknown_obligation_labels=sorted({l for r in results for l in r.get('unknown_labels', [])})[:20],
     )
+    # line coverage of the functions entered, restricted to the files the property is anchored in
+    anchors = set(getattr(mod, 'ANCHOR_FILES', []))
+    if not anchors:
+        try:
+            import json as _j
+            for l in open(os.path.join(HERE, 'properties.jsonl')):
+                pr = _j.loads(l)
+                if pr['id'] == prop: anchors = set(pr['anchors']['files'])
+        except Exception:       # noqa
+            pass
+    tot, hit, missing = {}, {}, {}
+    for r in results:
+        for fn, (allv, exe) in (r.get('line_report') or {}).items():
+            if fn.split(':')[0] not in anchors: continue
+            tot.setdefault(fn, set()).update(allv); hit.setdefault(fn, set()).update(exe)
+    for fn in tot:
+        m = sorted(tot[fn] - hit[fn])
+        if m: missing[fn] = m[:25]
+    cov['anchored_code_coverage'] = dict(functions_entered=len(tot), lines=sum(len(v) for v in tot.values()), lines_executed=sum(len(v) for v in hit.values()),
+                                         lines_never_executed_in_entered_functions={k: missing[k] for k in sorted(missing)[:60]})
     for k, v in extra.items():
         if k.startswith('x_'):
             cov[k[2:]] = v
@@ -192,6 +216,9 @@ def main(argv=None):
         hard.append('vacuity guard: reachability twin never satisfiable in ' + ', '.join(vac[:5]))
     if nonrepro:
         hard.append('counterexamples that do not reproduce on the real code: ' + '; '.join('%s (%s)' % x for x in nonrepro[:4])[:1500])
+    dis = [d for r in results for d in r.get('cross_disagree', [])]
+    if dis:
+        hard.append('z3 and cvc5 disagree on final queries: ' + json.dumps(dis[:3])[:600])
     if cov['states'] == 0 and not extra.get('states_ok'):
         hard.append('no path explored')
     for h in hard:
